@@ -72,3 +72,16 @@ def k4(site, case, info):
     mapping is taken for a bare module mapping and no call is produced."""
     return (site == "Config" and info.get("layout") == "bare_streams" and info.get("all_kwargs_null") is True
             and not str(info.get("carrier", "")).endswith("variable_attrs") and not info.get("raised"))
+
+
+def _explained(fid):
+    def clf(site, case, info):
+        """XarrayStream outcome that is exactly what the listed window defect produces (the check recomputes the
+        expected results under that defect and they match what the stream returned)."""
+        return site.startswith("XarrayStream.run") and fid in (info.get("explained_by") or []) and not info.get("raised")
+    return clf
+
+
+CLASSIFIERS["k1_xarray_one_sided_window"] = _explained("K-1")
+CLASSIFIERS["k2_xarray_time_not_coordinate"] = _explained("K-2")
+CLASSIFIERS["k3_xarray_end_inclusive"] = _explained("K-3")
